@@ -29,6 +29,12 @@ type spec struct {
 	dir     string
 	imports map[string]string
 	chans   bool
+	// files (optional): rewrite only these files of dir instead of all of them.
+	files []string
+	// keepGo: leave `go` statements alone (the goroutines of the subject stay
+	// free-running real goroutines; they must not touch shimmed objects while an
+	// execution is active and may only meet logical threads on real channels).
+	keepGo bool
 }
 
 var specs = map[string]spec{
@@ -40,6 +46,17 @@ var specs = map[string]spec{
 	"storage": {
 		dir:     "pkg/core/storage",
 		imports: map[string]string{"sync": "verif/shim/vsync", "sync/atomic": "verif/shim/vatomic"},
+	},
+	// C20 ledger part: the mutexes of the ledger's own entry points (addLock,
+	// lock, persistCond of Blockchain; the header hash list lock) become
+	// scheduling points. Atomics, channels and goroutines of the package stay
+	// real (storeBlock's AER writer and the event dispatcher are free-running
+	// and only meet the block-adding thread on real channels).
+	"coreledger": {
+		dir:     "pkg/core",
+		imports: map[string]string{"sync": "verif/shim/vsync"},
+		files:   []string{"blockchain.go", "headerhashes.go"},
+		keepGo:  true,
 	},
 }
 
@@ -142,6 +159,15 @@ func main() {
 		if e.IsDir() || !strings.HasSuffix(n, ".go") || strings.HasSuffix(n, "_test.go") {
 			continue
 		}
+		if len(sp.files) > 0 {
+			want := false
+			for _, w := range sp.files {
+				want = want || w == n
+			}
+			if !want {
+				continue
+			}
+		}
 		p := filepath.Join(srcdir, n)
 		f, err := parser.ParseFile(fset, p, nil, parser.ParseComments)
 		if err != nil {
@@ -166,6 +192,9 @@ func main() {
 	}
 	if len(files) == 0 {
 		fatal("no Go files in %s", srcdir)
+	}
+	if len(sp.files) > 0 && len(files) != len(sp.files) {
+		fatal("spec %s: %d of the %d listed files found in %s", os.Args[1], len(files), len(sp.files), srcdir)
 	}
 	rw := &rewriter{fset: fset, sp: sp, chanNames: map[string]bool{}}
 	if sp.chans {
@@ -431,6 +460,10 @@ func unparen(e ast.Expr) ast.Expr {
 func (rw *rewriter) post(c *astutil.Cursor) bool {
 	switch n := c.Node().(type) {
 	case *ast.GoStmt:
+		if rw.sp.keepGo {
+			rw.counts["go-kept"]++
+			return true
+		}
 		c.Replace(rw.goStmt(n))
 		rw.counts["go"]++
 		rw.needSched = true
